@@ -20,8 +20,9 @@ from props import ct_steps as S
 
 ID = "C04"
 TARGETS = ["PW.Props.C04", "PW.Props.C04Gen"]
-RULE = ("scripts of 3..40 operations from three streams (lattice: exact steps; float: Rodrigues / reorient / unit "
-        "conversion / random matrices; malformed: refused step parameters, unknown tag names, reads before assignment, "
+RULE = ("scripts of 3..40 operations from four streams (lattice: exact steps; float: Rodrigues / reorient / unit "
+        "conversion / random matrices; nonaffine: lattice scripts where 30% of the steps are exactly invertible small-integer "
+        "unimodular explicit matrices whose last row is not 0 0 0 1; malformed: refused step parameters, unknown tag names, reads before assignment, "
         "wrongly shaped assignments) with 1..6 tag names, tags at equal positions (consecutive tag_as), re-tagging of "
         "existing names (also of the name the points are assigned at), reads by attribute and by do_transform (single "
         "point and stack) in the middle of the script; every script ends with do_transform for every ordered pair of "
@@ -33,7 +34,10 @@ TRUSTED = ["external routines (np.linalg.inv, ounce.factor, rodrigues, rotation_
            "IEEE rounding not modelled: numeric outputs compared with 1e-9 * (entrywise bound of the absolute matrix products)"]
 ASSUMPTIONS = ["tag names are identifiers that do not collide with CoordinateManager's own attributes",
                "assigned points have shape (k,3) (the wrongly shaped assignment is checked for its exception class only)",
-               "explicit matrices are affine and are given with an inverse (or are numerically invertible)"]
+               "KNOWN FINDING path-independent/non-affine-explicit-matrix: append_transform accepts matrices whose last row is "
+               "not 0 0 0 1; w is dropped without dividing, so conversions spanning such a step do not compose (A->C differs "
+               "from A->B->C, round trips do not return; Lean: C04_*_defect_witness); generated in a dedicated stream, model and "
+               "code agree on them, single conversions are still the homogeneous product of the recorded matrices"]
 EXHAUSTIVE = {"quick": False, "thorough": False}
 
 NAMES = ["a", "b", "c", "d", "e", "f"]
@@ -42,7 +46,8 @@ UNKNOWN = ["zz", "yy"]
 
 def gen(rng, tier):
     quick = tier == "quick"
-    plan = [("lattice", 400 if quick else 6000), ("float", 250 if quick else 4000), ("malformed", 150 if quick else 2500)]
+    plan = [("lattice", 400 if quick else 6000), ("float", 250 if quick else 4000), ("malformed", 150 if quick else 2500),
+            ("nonaffine", 80 if quick else 1200)]
     for stream, count in plan:
         for _ in range(count):
             base = "float" if stream == "float" or (stream == "malformed" and rng.random() < 0.4) else "lattice"
@@ -64,6 +69,10 @@ def gen_script(rng, stream, base):
         if r < 0.30 or not tagged:
             if bad and rng.random() < 0.3:
                 ops.append(["step", S.gen_bad_step(rng)])
+            elif stream == "nonaffine" and rng.random() < 0.3:
+                # exactly invertible explicit matrix whose last row is not 0 0 0 1 (accepted by append_transform;
+                # known finding path-independent/non-affine-explicit-matrix)
+                ops.append(["step", S.gen_nonaffine_step(rng)])
             else:
                 ops.append(["step", S.gen_step(rng, base, budget)])
             if rng.random() < 0.6:
@@ -345,12 +354,21 @@ def oracle(spec, bound):
     triples = [(a, b, c) for a in names for b in names for c in names]
     if len(triples) > 14:
         triples = rng.sample(triples, 14)
+    def key(k_, *names_used):
+        # conversions whose span of recorded transforms holds an explicit matrix with last row != 0 0 0 1 are
+        # known not to compose (w is dropped without dividing)
+        if not usable:
+            return k_
+        pos = [tags[x] for x in names_used]
+        span = kept[min(pos):max(pos)]
+        return k_ if all(a[2] for a in span) else "path-independent/non-affine-explicit-matrix"
+
     for a, b, c in triples:
         ab = cm.do_transform(probe.copy(), a, b)
         abc = np.asarray(cm.do_transform(np.asarray(ab).copy(), b, c))
         ac = np.asarray(cm.do_transform(probe.copy(), a, c))
         if not np.allclose(abc, ac, rtol=0, atol=tol):
-            bad("path-independent", "%r -> %r -> %r gives %s, %r -> %r gives %s" % (a, b, c, abc.tolist(), a, c, ac.tolist()))
+            bad(key("path-independent", a, b, c), "%r -> %r -> %r gives %s, %r -> %r gives %s" % (a, b, c, abc.tolist(), a, c, ac.tolist()))
     pairs = [(a, b) for a in names for b in names]
     if len(pairs) > 12:
         pairs = rng.sample(pairs, 12)
@@ -358,7 +376,7 @@ def oracle(spec, bound):
         there = cm.do_transform(probe.copy(), a, b)
         back = np.asarray(cm.do_transform(np.asarray(there).copy(), b, a))
         if not np.allclose(back, probe, rtol=0, atol=tol):
-            bad("round-trip", "%r -> %r -> %r turns %s into %s" % (a, b, a, probe.tolist(), back.tolist()))
+            bad(key("round-trip", a, b), "%r -> %r -> %r turns %s into %s" % (a, b, a, probe.tolist(), back.tolist()))
         # the attribute protocol agrees with do_transform
         setattr(cm, a, probe.copy())
         via = np.asarray(getattr(cm, b))
